@@ -16,14 +16,14 @@ PURE = {
 # id -> (level, text, note, technique, design_ref)
 CLAIMED = {
  "C17": ("exploration",
-   "Seeded deterministic simulation of two real TcpStream endpoints over a byte pipe whose every read size, write acceptance, Pending, latency, back-pressure and close/reset offset is drawn from the plan; oracle = the sent message list (wire bytes, yielded items, clean-vs-error end). Sampling of the schedule/chunking space, not enumeration.",
+   "Seeded deterministic simulation of two real TcpStream endpoints over a byte pipe whose every read size, write acceptance, Pending, latency, back-pressure and close/reset offset is drawn from the plan; oracle = the sent message list (wire bytes, yielded items, clean-vs-error end; a clean end of an endpoint's stream - peer half-close while its own write is blocked - leaves nothing it accepted for sending half-written). Sampling of the schedule/chunking space, not enumeration.",
    "Trusts the simulated pipe to honour the AsyncRead/AsyncWrite contract; await-point scheduling granularity; TLS/QUIC framings not covered.",
    "deterministic simulation: seeded chunking/Pending/close fault plans on a simulated byte pipe + scheduler, reference-list oracle, delta-debugged replay", "4 (C17)"),
 }
 
 CLAIMED.update({
  "C16": ("exploration",
-   "Seeded deterministic simulation of the real UdpClientStream (retry, per-transmission sockets, 3-datagram cap, 0x20) against an omniscient forger producing near-miss datagrams, and of the real TcpClientStream+DnsMultiplexer+DnsExchange with k concurrent requests against a scripted peer that reorders, duplicates, invents ids, stays silent and closes/resets; oracle: provenance markers per datagram/response, wire-id bookkeeping over the recorded history, deadlines in simulated time.",
+   "Seeded deterministic simulation of the real UdpClientStream (retry, per-transmission sockets, 3-datagram cap, 0x20; requests built by from_query and by the caller) against an omniscient forger producing near-miss datagrams, and of the real TcpClientStream+DnsMultiplexer+DnsExchange with k concurrent requests against a scripted peer that reorders, duplicates, invents ids, stays silent and closes/resets; oracle: provenance markers per datagram/response, wire-id bookkeeping over the recorded history, deadlines in simulated time.",
    "Forger gets exactly one attribute wrong per datagram; id collisions between in-flight stream requests are reached only by chance; await-point scheduling granularity.",
    "deterministic simulation: simulated UDP/TCP behind RuntimeProvider, seeded forged-datagram / reorder / duplicate / close fault plans, history oracle with provenance markers", "4 (C16)"),
  "C12": ("exploration",
@@ -42,17 +42,17 @@ CLAIMED.update({
    "Clock is the interposed libc clock (all of hickory's time reads go through it); one validator per run; Ed25519/ECDSA/RSA fixture keys; await-point scheduling granularity.",
    "deterministic simulation: interposed wall clock with jumps/skew, signed zones served by the real authoritative code, seeded tamper plans, per-lookup truth oracle", "4 (C06)"),
  "C07": ("exploration",
-   "Seeded three-level signed hierarchies (root -> tld -> leaf, plus insecure, island, unsupported-algorithm and unsigned variants) served by the real authoritative code; the real validator resolves existing and non-existent names while a seeded adversary forges / strips / substitutes DS, DNSKEY, NS and answer records at a chosen upstream exchange, or injects data signed by the key of a validly chained sibling zone; oracle: Secure only for data whose chain to the configured anchor is genuine, Insecure only where a genuine DS-absence proof exists, genuine data never downgraded or rejected without a fault.",
-   "Adversary is on-path but cannot sign; zones are small; one fault site per run (plus compounds); opt-out downgrade of non-existent names is allowed as RFC 5155 permits.",
-   "deterministic simulation: upstream router seam (DnsHandle) with seeded per-exchange tamper faults, real server + real validator, chain-of-trust truth oracle", "4 (C07)"),
+   "Seeded three-level signed hierarchies (root -> tld -> leaf, plus insecure, island, unsupported-algorithm and unsigned variants) served by the real authoritative code; the real validator resolves existing and non-existent names while a seeded adversary forges / strips / substitutes DS, DNSKEY, NS and answer records at a chosen upstream exchange, or injects data signed by the key of a validly chained sibling zone; oracle: Secure only for data whose chain to the configured anchor is genuine, Insecure only where a genuine DS-absence proof exists, genuine data never downgraded or rejected without a fault. Second part `server`: the same worlds and faults reached as a client reaches them - request bytes -> real Catalog -> real ForwardZoneHandler -> Resolver (cache, alias chasing) -> DnssecDnsHandle -> NameServerPool -> UDP/TCP client streams over the simulated network -> upstream node; client flags DO/AD/CD per question, optional second round from the cache; oracle on the client's view: AD only on genuine RRsets of securely chained zones and never on NXDOMAIN for an existing name, with CD=0 no forged record or false NXDOMAIN of a signed zone is served, AD only when asked for.",
+   "Adversary is on-path but cannot sign; zones are small; one fault site per run (plus compounds); opt-out downgrade of non-existent names is allowed as RFC 5155 permits; in part `server` the upstream node (plays the recursive resolver) and the client are stubs, a missing AD bit is a probe only.",
+   "deterministic simulation: upstream router seam (DnsHandle) / simulated UDP+TCP upstream with seeded per-exchange tamper faults, real server + real validator (+ real forwarder, resolver cache and pool in part `server`), chain-of-trust truth oracle", "4 (C07)"),
  "C08": ("exploration",
-   "Seeded NSEC-signed zones over a small label universe (wildcards, empty non-terminals, CNAME owners, insecure delegation) served by the real authoritative code; the victim response is rewritten using only genuine signed material of the same zone (rcode flips, denial subsets, replayed expansions, predecessor proofs, a wildcard's NSEC relabelled to the query name, a forged unsigned apex NSEC); oracle: independent RFC 1034/4592 zone-truth evaluator - a Secure verdict must match the truth (soundness), the server's untouched proof must be accepted (completeness).",
+   "Seeded NSEC-signed zones over a small label universe (wildcards, empty non-terminals, CNAME owners, insecure delegation) served by the real authoritative code; the victim response is rewritten using only genuine signed material of the same zone (rcode flips, denial subsets, replayed expansions, predecessor proofs, a wildcard's NSEC relabelled to the query name, a forged unsigned apex NSEC); oracle: independent RFC 1034/4592 zone-truth evaluator - a Secure verdict must match the truth (soundness), the server's untouched proof must be accepted (completeness); second oracle: an independent RFC 4035 5.4 / RFC 6840 4 reference decides whether the usable (genuine, genuinely signed, original-owner) NSEC records of the delivered response entail its claim in every zone consistent with them - Secure without entailment is a violation even when the claim happens to be true.",
    "Label universe {a,b,*} depth <= 3; one zone; the attacker cannot sign; known defects are keyed by (claim, truth class) shape.",
-   "deterministic simulation: response-rewrite fault plans from harvested genuine records, real server + real validator, zone-truth oracle", "4 (C08)"),
+   "deterministic simulation: response-rewrite fault plans from harvested genuine records, real server + real validator, zone-truth oracle + independent entailment reference", "4 (C08)"),
  "C09": ("exploration",
-   "Same rig as C08 on NSEC3-signed zones (salt 0-2 bytes, iterations {0..600} against the validator's soft/hard limits, opt-out, second-chain records, NSEC3-typed RRsets signed by a delegated child zone); additionally: Secure never above the soft iteration limit, Bogus above the hard limit; false denials are attributed by re-validation without the last-of-chain NSEC3 record.",
+   "Same rig as C08 on NSEC3-signed zones (salt 0-2 bytes, iterations {0..600} against the validator's soft/hard limits, opt-out, second-chain records, NSEC3-typed RRsets signed by a delegated child zone); additionally: Secure never above the soft iteration limit, Bogus above the hard limit; entailment oracle per RFC 5155 8.3-8.8 (closest-encloser proof, covered next closer, covered/matched wildcard, same parameters, opt-out only for DS); acceptances that rest on the recorded wrap-around defect are attributed only when the proof is complete under a model of that defect and the validator rejects the response without the last-of-chain record.",
    "As C08; hash-order coincidences are sampled, not enumerated.",
-   "deterministic simulation: response-rewrite fault plans from harvested genuine NSEC3 records, real server + real validator, zone-truth oracle", "4 (C09)"),
+   "deterministic simulation: response-rewrite fault plans from harvested genuine NSEC3 records, real server + real validator, zone-truth oracle + independent entailment reference", "4 (C09)"),
  "C13": ("exploration",
    "Seeded TSIG-signed request sequences (server side: real Request parser -> Catalog TSIG verification; client side: real UdpClientStream / DnsMultiplexer with a signer and reply verification) with the simulated clock skewed/jumped and messages tampered at byte level (MAC truncation, time, fudge, key name, algorithm, trailing bytes, id/header rewrite, replayed replies); third part: the transfer policy across restarts through the real try_from_config on the same journal; oracle: an independent RFC 8945 verifier built on ring HMAC decides accept/reject and the error code for each message.",
    "HMAC-SHA256/384/512 only; multi-message (AXFR) TSIG chains not covered; reference verifier shares hickory's Name type only.",
@@ -73,11 +73,11 @@ CLAIMED.update({
    "Authoritative servers are a scripted stub (RFC 1034 4.3.2 subset); a hostile server lies only outside its bailiwick; non-validating recursor only. Second part `alias`: the real stub Resolver (CachingClient alias chasing) against an upstream serving alias chains of 0-13 hops, loops, 1-3 hops per response, concurrent identical lookups and cache sizes: bounded upstream queries, termination, right answer for short chains.",
    "deterministic simulation: generated internet on the simulated network, seeded hostile-record injection / lame / silent / dead-glue faults, marker-based history oracle, discrete-event clock for timeouts", "4 (C19)"),
  "C11": ("exploration",
-   "Seeded catalogs (nested, sibling, look-alike and root zones with zone markers, optional Skip handler in front) and allow/deny sets behind the real Server front gate (guarded hook = the call the socket loops make); 3-14 concurrent requests per run built by the rig's own encoder: valid queries over every opcode / QR / EDNS version / class / type, truncations, single-byte mutations, wrong question counts, random bytes, over UDP and TCP; oracle: 0 responses for short or QR=1 messages, else exactly 1 with the id and QR, NOTIMP / REFUSED / BADVERS / question echo / marker of the longest enclosing zone for constructed-valid requests (reference access-control and longest-suffix models), and a final probe that must still be served.",
+   "Seeded catalogs (nested, sibling, look-alike and root zones with zone markers, optional Skip handler in front; query names include asterisk-first names) and allow/deny sets behind the real Server front gate (guarded hook = the call the socket loops make); 3-14 concurrent requests per run built by the rig's own encoder: valid queries over every opcode / QR / EDNS version / class / type, truncations, single-byte mutations, wrong question counts, random bytes, over UDP and TCP; oracle: 0 responses for short or QR=1 messages, else exactly 1 with the id and QR, NOTIMP / REFUSED / BADVERS / question echo / marker of the longest enclosing zone for constructed-valid requests (reference access-control and longest-suffix models), and a final probe that must still be served.",
    "The tokio UDP/TCP socket loops themselves (sanitize_src_address, per-connection timeout, task spawning) are replaced by simulator tasks; second part `tcp-connection`: 1-8 requests pipelined on one simulated TCP connection (seeded chunking / Pending / cut / half-close) through the real server-side TcpStream framing and outbound queue, responses in request order, one per eligible request unless the client resets; for corrupted requests only count/id/QR (and NOTIMP for unknown opcodes) are asserted.",
    "deterministic simulation: concurrent request tasks under the seeded scheduler through the guarded server hook, hostile-input fault classes, reference model of the gate", "4 (C11)"),
  "C03": ("exploration",
-   "End-to-end form only: zones with RRsets large enough to meet every limit (0-300 TXT of 1-249 bytes, 0-4200 A, 0-13 NS with padded targets, 0-12 MX) queried with no EDNS or advertised sizes {0..65535}, DO on/off, each query over UDP and as a twin over TCP through the real Server front gate and MessageResponse::encode; invariants per response: UDP length <= max(512, advertised), TCP <= 65535, the bytes walk exactly to their end by the header counts (own wire walker), decode, every UDP section is a prefix of the twin's, TC set iff something (OPT included) was dropped.",
+   "End-to-end form only: zones with RRsets large enough to meet every limit (0-300 TXT of 1-249 bytes, 0-4200 A, 0-13 NS with padded targets, 0-12 MX, 0-9 HTTPS+SVCB records with alpn / ipv4hint / ipv6hint lists of 0-250 addresses, 0-30 CAA+NAPTR+SRV) queried with no EDNS or advertised sizes {0..65535}, DO on/off, each query over UDP and as a twin over TCP through the real Server front gate and MessageResponse::encode; invariants per response: UDP length <= max(512, advertised), TCP <= 65535, the bytes walk exactly to their end by the header counts (own wire walker), decode, every UDP section is a prefix of the twin's, TC set iff something (OPT included) was dropped.",
    "The encoder-level clause (arbitrary messages x arbitrary limits) is a pure function and is not claimed beyond the responses these runs produce; a seeded encoder change that needs a later record to reuse a name introduced by a dropped record is not reachable through the in-memory zone handler's responses (see DESIGN.md).",
    "deterministic simulation: UDP/TCP twin requests through the guarded server hook, size-limit boundary plans, structural wire oracle", "4 (C03)"),
 })
